@@ -319,9 +319,21 @@ func (i *interpreter) concretize(s sym) uint64 {
 	w := kindWidth(s.k)
 	for n := 0; ; n++ {
 		if n > 4096 {
+			if debugOn {
+				fmt.Fprintf(os.Stderr, "gosx: concretize stuck: term=%s model-val=%d ndec=%d nprefix=%d pre=%d\n", s.t.String()[:min(len(s.t.String()), 400)], i.evalTerm(s.t), len(i.decisions), len(i.prefix), i.domainEval(i.ts.Cmp(OpEq, s.t, i.ts.Const(w, i.evalTerm(s.t))), false, false))
+			}
 			panic(pathAbort{"unsupported", "concretize: too many values at " + i.where()})
 		}
-		v := i.hintValue(func() uint64 { return i.evalTerm(s.t) })
+		// a value pinned by the path condition needs no decision (and must not consume a
+		// replay hint that belongs to a later decision)
+		cand := i.evalTerm(s.t)
+		if pc := i.canon1(i.reduce(i.ts.Cmp(OpEq, s.t, i.ts.Const(w, cand)))); pc.op == OpTrue || i.domainEval(pc, false, false) == 1 {
+			if kindSigned(s.k) {
+				return uint64(sext(cand, w))
+			}
+			return cand
+		}
+		v := i.hintValue(func() uint64 { return cand })
 		if i.branchV(i.ts.Cmp(OpEq, s.t, i.ts.Const(w, v)), v) {
 			i.concretisations++
 			if debugOn && strings.Contains(i.where(), "leven") && i.dbgCount < 3 {
